@@ -249,9 +249,10 @@ def expanding_rules(prog, rep, E):
         else:
             rep.ok("C01.expanding-no-shrink", f"{ctx}.{f.src_name}")
     # insertion into the last sub-filter, after which nothing but append
-    add = prog.method(ctx, "add_alt")
+    from .C09 import entry_paths
+    add, add_paths = entry_paths(prog, ctx, "add_alt")  # growth / rotation helpers looked through
     tgt = set()
-    for p in paths(prog, ctx, add):
+    for p in add_paths:
         for i, e in enumerate(p.events):
             if e.kind == "call" and e.name == "add_alt" and e.recv is not None and not e.d.get("inlined"):
                 r = strip_epochs(e.recv)
